@@ -402,6 +402,8 @@ class FakeSnowflakeCursor:
         if result_sql:
             self._log_sql(result_sql, params)
             self._duck_conn.execute(result_sql)
+            # the status statement takes no parameters (description describes it with the last parameters)
+            params = None
 
         self._arrow_table = self._duck_conn.fetch_arrow_table()
         self._rowcount = affected_count if affected_count is not None else self._arrow_table.num_rows
